@@ -230,6 +230,10 @@ func (group *Group) broadcastByRtmpMsg(msg base.RtmpMsg) {
 	//	}
 	//}
 
+	// 是否为metadata或者音视频的seq header
+	isHeaderMsg := msg.Header.MsgTypeId == base.RtmpTypeIdMetadata ||
+		(len(msg.Payload) > 1 && (msg.IsVideoKeySeqHeader() || msg.IsAacSeqHeader()))
+
 	// # mpegts remuxer
 	if group.rtmp2MpegtsRemuxer != nil {
 		group.rtmp2MpegtsRemuxer.FeedRtmpMessage(msg)
@@ -298,7 +302,18 @@ func (group *Group) broadcastByRtmpMsg(msg base.RtmpMsg) {
 
 	// ## 转发本次数据
 	if len(group.rtmpSubSessionSet) > 0 {
-		if group.rtmpMergeWriter == nil {
+		if isHeaderMsg {
+			// 注意，metadata和seq header也需要发送给还在等待关键帧的session，否则等到关键帧时，session持有的是旧的header
+			if group.rtmpMergeWriter != nil {
+				group.rtmpMergeWriter.Flush()
+			}
+			for session := range group.rtmpSubSessionSet {
+				if session.IsFresh {
+					continue
+				}
+				_ = session.Write(lazyRtmpChunkDivider.GetEnsureWithoutSdf())
+			}
+		} else if group.rtmpMergeWriter == nil {
 			group.write2RtmpSubSessions(lazyRtmpChunkDivider.GetEnsureWithoutSdf())
 		} else {
 			group.rtmpMergeWriter.Write(lazyRtmpChunkDivider.GetEnsureWithoutSdf())
@@ -366,6 +381,9 @@ func (group *Group) broadcastByRtmpMsg(msg base.RtmpMsg) {
 			if msg.IsVideoKeyNalu() {
 				session.Write(lazyRtmpMsg2FlvTag.GetEnsureWithoutSdf())
 				session.ShouldWaitVideoKeyFrame = false
+			} else if isHeaderMsg {
+				// 等待关键帧期间，metadata和seq header依然需要发送
+				session.Write(lazyRtmpMsg2FlvTag.GetEnsureWithoutSdf())
 			}
 		} else {
 			session.Write(lazyRtmpMsg2FlvTag.GetEnsureWithoutSdf())
